@@ -240,7 +240,7 @@ def oracle(case, ob):
 PROP = Prop(
     pid="C15",
     props_v="theories/Props/C15.v",
-    theory_files=["theories/Sched/Model.v", "theories/Sched/Corr.v", "theories/Sched/ThrowProofs.v"],
+    theory_files=["theories/Sched/Model.v", "theories/Sched/Corr.v", "theories/Sched/PartTables.v", "theories/Sched/PartitionProofs.v", "theories/Sched/PartitionSteps.v", "theories/Sched/PartitionRun.v", "theories/Sched/PartitionFinal.v", "theories/Sched/ThrowProofs.v"],
     streams=[make_stream("interrupts", gen, oracle)],
     rule="bounded-exhaustive environment sequences over {step, task_throw (cancel-derived and other exception "
          "classes), cancel, set event, resolve future} against three Python tasks (never started / blocked on an "
